@@ -1,5 +1,231 @@
-//! NTT120 scalar layer ops (opcodes 71xx) for the C07 harness. Stub: filled in by the NTT120 development.
+//! NTT120 scalar layer ops (opcodes 71xx) for the C07 harness: the REAL functions of
+//! poulpy_cpu_ref::reference::ntt120::{arithmetic, mat_vec} (generic in the prime set) and the `Ntt*` trait
+//! implementations of NTT120Ref / NTT120Avx (Primes30 only).
+//!
+//! header: be pset [extra]      be: 3 = reference functions `*_ref::<P>`, 4 = NTT120Avx through the traits,
+//!                                  5 = NTT120Ref through the traits;   pset: 29 | 30 | 31 (traits: 30 only)
+//! u64 / u32 values travel as non-negative numbers, i128 outputs as they are.
+//!
+//! Domains.  The reference functions accept every u64 / u32.  The AVX kernels document narrower input ranges
+//! (c_from_b / b_to_znx128: x < Q[k] << 33; add/sub/negate: x < 2 * (Q[k] << 33)); AVX records are generated
+//! inside those ranges.  bbc/bbb/baa: ell < 10 000 (documented), a few records sit at ell = 9 999 with all-ones inputs.
+use poulpy_cpu_avx::NTT120Avx;
+use poulpy_cpu_ref::NTT120Ref;
+use poulpy_cpu_ref::reference::ntt120::{
+    NttAdd, NttCFromB, NttFromZnx64, NttMulBbb, NttMulBbc, NttMulBbc1ColX2, NttMulBbc2ColsX2, NttNegate, NttSub, NttToZnx128,
+    arithmetic::{
+        add_bbb_ref, add_ccc_ref, b_from_znx64_masked_ref, b_from_znx64_ref, b_to_znx128_ref, c_from_b_ref, c_from_znx64_ref,
+    },
+    mat_vec::{
+        BaaMeta, BbbMeta, BbcMeta, vec_mat1col_product_baa_ref, vec_mat1col_product_bbb_ref, vec_mat1col_product_bbc_ref,
+        vec_mat1col_product_x2_bbc_ref, vec_mat2cols_product_x2_bbc_ref,
+    },
+    primes::{PrimeSet, Primes29, Primes30, Primes31},
+    types::Q_SHIFTED,
+};
 use poulpy_verif_harness::rec::*;
 
-pub fn op(r: &Rec) -> Vec<Vec<i128>> { panic!("c07_ntt: unknown op {}", r.code) }
-pub fn generate(_tier: &str, _rng: &mut Rng, _out: &mut Vec<Rec>) {}
+fn to_u64(v: &[i128]) -> Vec<u64> { v.iter().map(|x| *x as u64).collect() }
+fn to_u32(v: &[i128]) -> Vec<u32> { v.iter().map(|x| *x as u32).collect() }
+fn from_u64(v: &[u64]) -> Vec<i128> { v.iter().map(|x| *x as i128).collect() }
+fn from_u32(v: &[u32]) -> Vec<i128> { v.iter().map(|x| *x as i128).collect() }
+/// the u32 view of a q120b slice (little endian: low word first), as `bytemuck::cast_slice` gives it
+fn u32_view(v: &[u64]) -> Vec<u32> { v.iter().flat_map(|x| [*x as u32, (*x >> 32) as u32]).collect() }
+
+fn ref_op<P: PrimeSet>(r: &Rec) -> Vec<Vec<i128>> {
+    let e: Vec<i128> = vec![];
+    let x = r.vs.first().unwrap_or(&e);
+    let y = r.vs.get(1).unwrap_or(&e);
+    match r.code {
+        7100 => {
+            let (baa, bbb, bbc) = (BaaMeta::<P>::new(), BbbMeta::<P>::new(), BbcMeta::<P>::new());
+            let mut a = vec![baa.h as i128]; a.extend(from_u64(&baa.h_pow_red));
+            let mut b = vec![bbb.h as i128, bbb.s1h_pow_red as i128];
+            for t in [&bbb.s2l_pow_red, &bbb.s2h_pow_red, &bbb.s3l_pow_red, &bbb.s3h_pow_red, &bbb.s4l_pow_red, &bbb.s4h_pow_red] { b.extend(from_u64(t)); }
+            let mut c = vec![bbc.h as i128]; c.extend(from_u64(&bbc.s2l_pow_red)); c.extend(from_u64(&bbc.s2h_pow_red));
+            vec![a, b, c, from_u64(&Q_SHIFTED)]
+        }
+        7101 => { let xi = v64(x); let mut res = vec![0u64; 4 * xi.len()]; b_from_znx64_ref::<P>(xi.len(), &mut res, &xi); vec![from_u64(&res)] }
+        7102 => { let xi = v64(x); let mut res = vec![0u64; 4 * xi.len()]; b_from_znx64_masked_ref::<P>(xi.len(), &mut res, &xi, r.ps[2] as i64); vec![from_u64(&res)] }
+        7103 => { let xi = v64(x); let mut res = vec![0u32; 8 * xi.len()]; c_from_znx64_ref::<P>(xi.len(), &mut res, &xi); vec![from_u32(&res)] }
+        7104 => { let xu = to_u64(x); let nn = xu.len() / 4; let mut res = vec![0u32; 8 * nn]; c_from_b_ref::<P>(nn, &mut res, &xu); vec![from_u32(&res)] }
+        7105 => { let xu = to_u64(x); let nn = xu.len() / 4; let mut res = vec![0i128; nn]; b_to_znx128_ref::<P>(nn, &mut res, &xu); vec![res] }
+        7106 => { let (xu, yu) = (to_u64(x), to_u64(y)); let nn = xu.len() / 4; let mut res = vec![0u64; 4 * nn]; add_bbb_ref::<P>(nn, &mut res, &xu, &yu); vec![from_u64(&res)] }
+        7107 => { let (xu, yu) = (to_u32(x), to_u32(y)); let nn = xu.len() / 8; let mut res = vec![0u32; 8 * nn]; add_ccc_ref::<P>(nn, &mut res, &xu, &yu); vec![from_u32(&res)] }
+        7110 => { let (xu, yu) = (to_u32(x), to_u32(y)); let ell = xu.len() / 8; let mut res = vec![0u64; 4];
+                  vec_mat1col_product_bbc_ref::<P>(&BbcMeta::<P>::new(), ell, &mut res, &xu, &yu); vec![from_u64(&res)] }
+        7111 => { let (xu, yu) = (to_u32(x), to_u32(y)); let ell = xu.len() / 16; let mut res = vec![0u64; 8];
+                  vec_mat1col_product_x2_bbc_ref::<P>(&BbcMeta::<P>::new(), ell, &mut res, &xu, &yu); vec![from_u64(&res)] }
+        7112 => { let (xu, yu) = (to_u32(x), to_u32(y)); let ell = xu.len() / 16; let mut res = vec![0u64; 16];
+                  vec_mat2cols_product_x2_bbc_ref::<P>(&BbcMeta::<P>::new(), ell, &mut res, &xu, &yu); vec![from_u64(&res)] }
+        7113 => { let (xu, yu) = (to_u64(x), to_u64(y)); let ell = xu.len() / 4; let mut res = vec![0u64; 4];
+                  vec_mat1col_product_bbb_ref::<P>(&BbbMeta::<P>::new(), ell, &mut res, &xu, &yu); vec![from_u64(&res)] }
+        7114 => { let (xu, yu) = (to_u32(x), to_u32(y)); let ell = xu.len() / 4; let mut res = vec![0u64; 4];
+                  vec_mat1col_product_baa_ref::<P>(&BaaMeta::<P>::new(), ell, &mut res, &xu, &yu); vec![from_u64(&res)] }
+        7115 => { let xi = v64(x); let mut b = vec![0u64; 4 * xi.len()]; b_from_znx64_ref::<P>(xi.len(), &mut b, &xi);
+                  let mut res = vec![0i128; xi.len()]; b_to_znx128_ref::<P>(xi.len(), &mut res, &b); vec![res] }
+        7116 => {
+            let (ai, bi) = (v64(x), v64(y));
+            let meta = BbcMeta::<P>::new();
+            let mut out = Vec::new();
+            for (a, b) in ai.iter().zip(bi.iter()) {
+                let mut ab = vec![0u64; 4]; b_from_znx64_ref::<P>(1, &mut ab, &[*a]);
+                let mut bc = vec![0u32; 8]; c_from_znx64_ref::<P>(1, &mut bc, &[*b]);
+                let mut prod = vec![0u64; 4]; vec_mat1col_product_bbc_ref::<P>(&meta, 1, &mut prod, &u32_view(&ab), &bc);
+                let mut res = vec![0i128; 1]; b_to_znx128_ref::<P>(1, &mut res, &prod);
+                out.push(res[0]);
+            }
+            vec![out]
+        }
+        _ => panic!("c07_ntt: op {} has no reference-function form", r.code),
+    }
+}
+
+fn trait_op<B>(r: &Rec) -> Vec<Vec<i128>>
+where
+    B: NttFromZnx64 + NttToZnx128 + NttAdd + NttSub + NttNegate + NttCFromB + NttMulBbc + NttMulBbc1ColX2 + NttMulBbc2ColsX2 + NttMulBbb,
+{
+    let e: Vec<i128> = vec![];
+    let x = r.vs.first().unwrap_or(&e);
+    let y = r.vs.get(1).unwrap_or(&e);
+    match r.code {
+        7101 => { let xi = v64(x); let mut res = vec![0u64; 4 * xi.len()]; B::ntt_from_znx64(&mut res, &xi); vec![from_u64(&res)] }
+        7102 => { let xi = v64(x); let mut res = vec![0u64; 4 * xi.len()]; B::ntt_from_znx64_masked(&mut res, &xi, r.ps[2] as i64); vec![from_u64(&res)] }
+        7104 => { let xu = to_u64(x); let nn = xu.len() / 4; let mut res = vec![0u32; 8 * nn]; B::ntt_c_from_b(nn, &mut res, &xu); vec![from_u32(&res)] }
+        7105 => { let xu = to_u64(x); let nn = xu.len() / 4; let mut res = vec![0i128; nn]; B::ntt_to_znx128(&mut res, nn, &xu); vec![res] }
+        7106 => { let (xu, yu) = (to_u64(x), to_u64(y)); let mut res = vec![0u64; xu.len()]; B::ntt_add(&mut res, &xu, &yu); vec![from_u64(&res)] }
+        7108 => { let (xu, yu) = (to_u64(x), to_u64(y)); let mut res = vec![0u64; xu.len()]; B::ntt_sub(&mut res, &xu, &yu); vec![from_u64(&res)] }
+        7109 => { let xu = to_u64(x); let mut res = vec![0u64; xu.len()]; B::ntt_negate(&mut res, &xu); vec![from_u64(&res)] }
+        7110 => { let (xu, yu) = (to_u32(x), to_u32(y)); let ell = xu.len() / 8; let mut res = vec![0u64; 4];
+                  B::ntt_mul_bbc(&BbcMeta::<Primes30>::new(), ell, &mut res, &xu, &yu); vec![from_u64(&res)] }
+        7111 => { let (xu, yu) = (to_u32(x), to_u32(y)); let ell = xu.len() / 16; let mut res = vec![0u64; 8];
+                  B::ntt_mul_bbc_1col_x2(&BbcMeta::<Primes30>::new(), ell, &mut res, &xu, &yu); vec![from_u64(&res)] }
+        7112 => { let (xu, yu) = (to_u32(x), to_u32(y)); let ell = xu.len() / 16; let mut res = vec![0u64; 16];
+                  B::ntt_mul_bbc_2cols_x2(&BbcMeta::<Primes30>::new(), ell, &mut res, &xu, &yu); vec![from_u64(&res)] }
+        7113 => { let (xu, yu) = (to_u64(x), to_u64(y)); let ell = xu.len() / 4; let mut res = vec![0u64; 4];
+                  B::ntt_mul_bbb(&BbbMeta::<Primes30>::new(), ell, &mut res, &xu, &yu); vec![from_u64(&res)] }
+        7115 => { let xi = v64(x); let mut b = vec![0u64; 4 * xi.len()]; B::ntt_from_znx64(&mut b, &xi);
+                  let mut res = vec![0i128; xi.len()]; B::ntt_to_znx128(&mut res, xi.len(), &b); vec![res] }
+        7116 => {
+            let (ai, bi) = (v64(x), v64(y));
+            let meta = BbcMeta::<Primes30>::new();
+            let mut out = Vec::new();
+            for (a, b) in ai.iter().zip(bi.iter()) {
+                let mut ab = vec![0u64; 4]; B::ntt_from_znx64(&mut ab, &[*a]);
+                let mut bc = vec![0u32; 8]; c_from_znx64_ref::<Primes30>(1, &mut bc, &[*b]);
+                let mut prod = vec![0u64; 4]; B::ntt_mul_bbc(&meta, 1, &mut prod, &u32_view(&ab), &bc);
+                let mut res = vec![0i128; 1]; B::ntt_to_znx128(&mut res, 1, &prod);
+                out.push(res[0]);
+            }
+            vec![out]
+        }
+        _ => panic!("c07_ntt: op {} has no trait form", r.code),
+    }
+}
+
+pub fn op(r: &Rec) -> Vec<Vec<i128>> {
+    let (be, pset) = (r.ps[0], r.ps[1]);
+    match (be, pset) {
+        (3, 29) => ref_op::<Primes29>(r),
+        (3, 30) => ref_op::<Primes30>(r),
+        (3, 31) => ref_op::<Primes31>(r),
+        (4, 30) => trait_op::<NTT120Avx>(r),
+        (5, 30) => trait_op::<NTT120Ref>(r),
+        _ => panic!("c07_ntt: bad (be, pset) = ({}, {})", be, pset),
+    }
+}
+
+// ------------------------------------------------------------------------------------------------------------
+// generators
+fn q_of(pset: i128) -> [u64; 4] {
+    match pset { 29 => Primes29::Q.map(|q| q as u64), 31 => Primes31::Q.map(|q| q as u64), _ => Primes30::Q.map(|q| q as u64) }
+}
+
+/// i64 values: boundary dictionary (i64::MIN/MAX, 0, +-1, +-2^k, +-2^k +- 1) and random
+fn i64s(rng: &mut Rng, n: usize, bits: u32) -> Vec<i128> { (0..n).map(|_| rng.val64(bits) as i128).collect() }
+
+/// a u64 residue for prime q: boundary values around multiples of q, q << 33, powers of two; `lim` = exclusive upper bound
+fn u64_val(rng: &mut Rng, q: u64, lim: u128) -> i128 {
+    let qs = (q as u128) << 33;
+    let v: u128 = match rng.below(10) {
+        0 => rng.pick(&[0u128, 1, (q - 1) as u128, q as u128, (q + 1) as u128, (1 << 32) - 1, 1 << 32, (1 << 32) + 1]),
+        1 => rng.pick(&[qs - 1, qs, qs + 1, 2 * qs - 1, 2 * qs, 2 * qs + 1, u64::MAX as u128, (1u128 << 63) - 1, 1u128 << 63, (1u128 << 63) + q as u128]),
+        2 => { let k = rng.below(64) as u32; let p = 1u128 << k; rng.pick(&[p, p - 1, p + 1]) }
+        3 => (rng.below(1 << 20) as u128) * q as u128 + rng.pick(&[0u128, 1, (q - 1) as u128]),
+        4 => rng.below(q) as u128,
+        _ => rng.next() as u128,
+    };
+    (if v < lim { v } else { v % lim }) as i128
+}
+fn q120b(rng: &mut Rng, pset: i128, n: usize, dom: u32) -> Vec<i128> {
+    // dom: 0 = any u64, 1 = below Q << 33, 2 = below 2 * (Q << 33)
+    let q = q_of(pset);
+    (0..4 * n).map(|i| { let qk = q[i % 4]; let qs = (qk as u128) << 33;
+        let lim = match dom { 1 => qs, 2 => (2 * qs).min(1u128 << 64), _ => 1u128 << 64 }; u64_val(rng, qk, lim) }).collect()
+}
+fn u32s(rng: &mut Rng, n: usize, class: u64) -> Vec<i128> {
+    (0..n).map(|_| (match class { 0 => u32::MAX as u64, 1 => 0, 2 => rng.pick(&[0u64, 1, u32::MAX as u64, 1 << 31, (1 << 31) - 1, 1 << 16]), _ => rng.next() & 0xFFFF_FFFF }) as i128).collect()
+}
+/// a well-formed q120c vector (r, r * 2^32 mod q) produced by the real conversion of random q120b values
+fn q120c(rng: &mut Rng, pset: i128, n: usize) -> Vec<i128> {
+    let b = to_u64(&q120b(rng, pset, n, 0));
+    let mut c = vec![0u32; 8 * n];
+    match pset { 29 => c_from_b_ref::<Primes29>(n, &mut c, &b), 31 => c_from_b_ref::<Primes31>(n, &mut c, &b), _ => c_from_b_ref::<Primes30>(n, &mut c, &b) }
+    from_u32(&c)
+}
+
+/// the dispatcher in bin/c07.rs reads an 11-word header before looking at the opcode: pad with zeros
+fn pad(mut ps: Vec<i128>) -> Vec<i128> { while ps.len() < 11 { ps.push(0); } ps }
+
+pub fn generate(tier: &str, rng: &mut Rng, out: &mut Vec<Rec>) {
+    let reps = if tier == "thorough" { 4000 } else { 420 };
+    let period = if tier == "thorough" { 25 } else { 1000 }; // records at the documented accumulation limit ell = 9 999
+    for pset in [29i128, 30, 31] { out.push(Rec::new(7100, pad(vec![3, pset]), vec![])); }
+    let codes = [7101i64, 7102, 7103, 7104, 7105, 7106, 7107, 7108, 7109, 7110, 7111, 7112, 7113, 7114, 7115, 7116];
+    for it in 0..reps {
+        let code = codes[it % codes.len()];
+        let has_trait = !matches!(code, 7103 | 7107 | 7114);
+        let ref_only_fn = matches!(code, 7108 | 7109); // exist only as trait implementations
+        let be: i128 = if ref_only_fn { rng.pick(&[4, 5]) } else if has_trait { rng.pick(&[3, 3, 4, 4, 5]) } else { 3 };
+        let pset: i128 = if be == 3 { rng.pick(&[29, 30, 30, 31]) } else { 30 };
+        let avx = be == 4;
+        let n = rng.range(1, 12) as usize;
+        let mut ps = vec![be, pset];
+        let mut vs: Vec<Vec<i128>> = vec![];
+        match code {
+            7101 | 7103 | 7115 => vs.push(i64s(rng, n, 40)),
+            7102 => { let rv = rng.i64(); ps.push(rng.pick(&[-1i64, 0, 1, (1 << 17) - 1, i64::MAX, i64::MIN, -(1 << 20), rv]) as i128); vs.push(i64s(rng, n, 40)); }
+            7104 | 7105 => vs.push(q120b(rng, pset, n, if avx { 1 } else { 0 })),
+            7106 | 7108 => { let d = if avx { 2 } else { 0 }; vs.push(q120b(rng, pset, n, d)); vs.push(q120b(rng, pset, n, d)); }
+            7109 => vs.push(q120b(rng, pset, n, if avx { 2 } else { 0 })),
+            7107 => { let a = q120c(rng, pset, n); let b = q120c(rng, pset, n); vs.push(a); vs.push(b); }
+            7110..=7112 => {
+                let big = it % (codes.len() * period) < codes.len();
+                // (the x2 forms share the accumulator code; their records stay shorter to spare the extracted model's stack)
+                let ell = if big { if code == 7110 { 9_999 } else { 2_000 } } else { rng.pick(&[0usize, 1, 2, 3, 7, 16, 33]) };
+                let (xw, yw) = match code { 7110 => (8, 8), 7111 => (16, 16), _ => (16, 32) };
+                let class = if big { 0 } else { rng.below(6) };
+                vs.push(u32s(rng, xw * ell, class));
+                if !big && rng.below(2) == 0 { vs.push(q120c(rng, pset, yw / 8 * ell)); } else { vs.push(u32s(rng, yw * ell, class)); }
+            }
+            7113 => {
+                let big = it % (codes.len() * period) < codes.len();
+                let ell = if big { 9_999 } else { rng.pick(&[0usize, 1, 2, 3, 7, 16, 33]) };
+                if big { vs.push(vec![u64::MAX as i128; 4 * ell]); vs.push(vec![u64::MAX as i128; 4 * ell]); }
+                else { vs.push(q120b(rng, pset, ell, 0)); vs.push(q120b(rng, pset, ell, 0)); }
+            }
+            7114 => {
+                let big = it % (codes.len() * period) < codes.len();
+                let ell = if big { 9_999 } else { rng.pick(&[0usize, 1, 2, 3, 7, 16, 33]) };
+                let class = if big { 0 } else { rng.below(6) };
+                vs.push(u32s(rng, 4 * ell, class)); vs.push(u32s(rng, 4 * ell, class));
+            }
+            _ => { // 7116: |a * b| < Q / 2
+                let bits = match pset { 29 => 57, 31 => 61, _ => 59 };
+                let f = |rng: &mut Rng| -> i128 { let m = 1i64 << bits; let v: i64 = match rng.below(5) { 0 => rng.pick(&[m, -m, m - 1, 1 - m, 0, 1, -1]), 1 => rng.range(-9, 9), _ => rng.range(-m, m) }; v as i128 };
+                vs.push((0..n).map(|_| f(rng)).collect()); vs.push((0..n).map(|_| f(rng)).collect());
+            }
+        }
+        out.push(Rec::new(code, pad(ps), vs));
+    }
+}
